@@ -583,16 +583,21 @@ theorem ident_reported (e : SchemaEntry) (r : SchemaRow) (h : e.ReportedAs r) : 
   unfold SchemaRow.ident SchemaEntry.ident
   rw [h.rowid, h.rowType, h.name, h.tableName, h.sql]
 
-/-- what the lookups give for a table entry of a schema whose rows are reported as `es` -/
+/-- what the lookups give for an entry of a schema whose rows are reported as `es`: the identity
+lookup of `VersionParser`, the by-name lookup among the admitted `kinds`, the root number list -/
 theorem lookups (es : List SchemaEntry) (ms : MasterSchema)
     (hent : Elementwise SchemaEntry.ReportedAs (schemaOrder es) ms.entries)
     (hroots : ms.rootNumbers = schemaRoots es)
     (hinj : ∀ x ∈ es, ∀ y ∈ es, x.rowid = y.rowid → x = y)
-    (e : SchemaEntry) (he : e ∈ es) (hty : e.type = "table") (r : Nat) (hr : e.rootpage = some (r : Int)) :
+    (e : SchemaEntry) (he : e ∈ es)
+    (hty : e.type = "table" ∨ e.type = "index" ∨ e.type = "view" ∨ e.type = "trigger")
+    (r : Nat) (hr : e.rootpage = some (r : Int)) :
     rootOf ms e.ident = some (.int r) ∧
-    ((∀ e' ∈ es, e'.name = e.name → e' = e) → (entryByName ms e.name).map (·.rootPage) = some (.int r)) ∧
+    (∀ kinds : List String, e.type ∈ kinds →
+      (∀ e' ∈ es, e'.type ∈ kinds → e'.name = e.name → e' = e) →
+      (entryByName kinds ms e.name).map (·.rootPage) = some (.int r)) ∧
     (r ≠ 0 → r ∈ ms.rootNumbers) := by
-  have heo : e ∈ schemaOrder es := (mem_schemaOrder es e).mpr ⟨he, Or.inl hty⟩
+  have heo : e ∈ schemaOrder es := (mem_schemaOrder es e).mpr ⟨he, hty⟩
   have hval : e.rootVal = .int r := by simp [SchemaEntry.rootVal, hr]
   refine ⟨?_, ?_, ?_⟩
   · obtain ⟨y, hy, hry⟩ := lookup_last _ _ _ hent e heo (fun row => row.ident = e.ident)
@@ -604,13 +609,16 @@ theorem lookups (es : List SchemaEntry) (ms : MasterSchema)
         exact hinj x' hx e he h2)
     unfold rootOf
     rw [hy, Option.map_some, hry.rootPage, hval]
-  · intro huniq
-    obtain ⟨y, hy, hry⟩ := lookup_last _ _ _ hent e heo (fun row => row.name = e.name)
-      (fun y hy => by simp [hy.name])
+  · intro kinds hk huniq
+    obtain ⟨y, hy, hry⟩ := lookup_last _ _ _ hent e heo
+      (fun row => decide (kinds.contains row.rowType = true ∧ row.name = e.name))
+      (fun y hy => by
+        rw [decide_eq_true_eq, hy.rowType, hy.name]
+        exact ⟨List.contains_iff_mem.mpr hk, rfl⟩)
       (fun x' hx' y hy hp => by
         have hx := ((mem_schemaOrder es x').mp hx').1
-        have h1 : x'.name = e.name := by rw [← hy.name]; simpa using hp
-        exact huniq x' hx h1)
+        rw [decide_eq_true_eq, hy.rowType, hy.name] at hp
+        exact huniq x' hx (List.contains_iff_mem.mp hp.1) hp.2)
     unfold entryByName
     rw [hy, Option.map_some, hry.rootPage, hval]
   · intro hr0
@@ -618,17 +626,57 @@ theorem lookups (es : List SchemaEntry) (ms : MasterSchema)
     refine ⟨e, heo, ?_⟩
     simp [rootNat, hr, hr0]
 
-theorem select_of_lookup (v : VersionIf) (frames : Nat) (ms : MasterSchema) (name : List Nat) (r : Nat)
-    (tt : List BPage) (h : (entryByName ms name).map (·.rootPage) = some (.int r))
-    (htt : getBTreeRoot v frames r = .ok tt) :
-    selectAllFromTable v frames ms name = .ok ((aggregateLeafCells tt []).1, (aggregateLeafCells tt []).2.1) := by
-  obtain ⟨row, hrow, hrp⟩ := Option.map_eq_some_iff.mp h
-  unfold selectAllFromTable
-  simp only [hrow, hrp]
+theorem aggregate_of_lookup (v : VersionIf) (frames : Nat) (row : Option SchemaRow) (r : Nat)
+    (tt : List BPage) (h : row.map (·.rootPage) = some (.int r)) (htt : getBTreeRoot v frames r = .ok tt) :
+    ∃ y, row = some y ∧
+      aggregateOfRow v frames y = .ok ((aggregateLeafCells tt []).1, (aggregateLeafCells tt []).2.1) := by
+  obtain ⟨y, hrow, hrp⟩ := Option.map_eq_some_iff.mp h
+  refine ⟨y, hrow, ?_⟩
+  unfold aggregateOfRow
+  simp only [hrp]
   rw [if_neg (by omega), Int.toNat_natCast, htt]
   rfl
 
-/-- **schema row → root page → rows.** -/
+theorem select_table_of_lookup (v : VersionIf) (frames : Nat) (ms : MasterSchema) (name : List Nat) (r : Nat)
+    (tt : List BPage) (h : (tableByName ms name).map (·.rootPage) = some (.int r))
+    (htt : getBTreeRoot v frames r = .ok tt) :
+    selectAllFromTable v frames ms name = .ok ((aggregateLeafCells tt []).1, (aggregateLeafCells tt []).2.1) := by
+  obtain ⟨y, hrow, hagg⟩ := aggregate_of_lookup v frames _ r tt h htt
+  unfold selectAllFromTable
+  simp only [hrow, hagg]
+
+theorem select_index_of_lookup (v : VersionIf) (frames : Nat) (ms : MasterSchema) (name : List Nat) (r : Nat)
+    (tt : List BPage) (h : (indexByName ms name).map (·.rootPage) = some (.int r))
+    (htt : getBTreeRoot v frames r = .ok tt) :
+    selectAllFromIndex v frames ms name = .ok ((aggregateLeafCells tt []).1, (aggregateLeafCells tt []).2.1) := by
+  obtain ⟨y, hrow, hagg⟩ := aggregate_of_lookup v frames _ r tt h htt
+  unfold selectAllFromIndex
+  simp only [hrow, hagg]
+
+/-- the schema part shared by the table and index statements -/
+theorem schema_entry_lookup (v : VersionIf) (hu : 512 ≤ v.pageSize) (hu2 : v.pageSize ≤ 65536)
+    (enc : Nat) (henc : enc = 1 ∨ enc = 2 ∨ enc = 3)
+    (Ts : TTree) (hp1 : Ts.page = 1) (hT : TreeLaidOut v true Ts) (frames : Nat) (hf : Ts.frames ≤ frames)
+    (hpd : Ts.PagesDistinct) (hnd : (Ts.leafCells.map (·.rowid)).Nodup)
+    (hleaf : ∀ nd ∈ Ts.nodes true, nd.2.1.isInterior = false → nd.2.2 = [] → nd.1 = 1)
+    (es : List SchemaEntry) (hes : StoredSchemaRows enc Ts.leafCells es)
+    (hwf : ∀ e ∈ es, e.WellFormed) (hsup : ∀ e ∈ es, e.Supported)
+    (e : SchemaEntry) (he : e ∈ es)
+    (hty : e.type = "table" ∨ e.type = "index" ∨ e.type = "view" ∨ e.type = "trigger")
+    (r : Nat) (hr : e.rootpage = some (r : Int)) :
+    ∃ t ms, getBTreeRoot v frames 1 = .ok t ∧ (∀ v' : VersionIf, parseMasterSchema v' enc t = .ok ms) ∧
+      rootOf ms e.ident = some (.int r) ∧
+      (∀ kinds : List String, e.type ∈ kinds →
+        (∀ e' ∈ es, e'.type ∈ kinds → e'.name = e.name → e' = e) →
+        (entryByName kinds ms e.name).map (·.rootPage) = some (.int r)) ∧
+      (r ≠ 0 → r ∈ ms.rootNumbers) := by
+  have hne : es ≠ [] := by intro h; rw [h] at he; cases he
+  obtain ⟨t, ms, ht, hms, _, hent, hroots, _⟩ :=
+    schema_rows_strong v hu hu2 enc henc Ts hp1 hT frames hf hpd hleaf es hes hne hwf hsup
+  obtain ⟨h1, h2, h3⟩ := lookups es ms hent hroots (entries_rowid_inj enc _ es hes hnd) e he hty r hr
+  exact ⟨t, ms, ht, hms, h1, h2, h3⟩
+
+/-- **schema row → root page → rows** (tables). -/
 theorem table_rows_by_name (v : VersionIf) (hu : 512 ≤ v.pageSize) (hu2 : v.pageSize ≤ 65536)
     (enc : Nat) (henc : enc = 1 ∨ enc = 2 ∨ enc = 3)
     (Ts : TTree) (hp1 : Ts.page = 1) (hT : TreeLaidOut v true Ts) (frames : Nat) (hf : Ts.frames ≤ frames)
@@ -637,26 +685,60 @@ theorem table_rows_by_name (v : VersionIf) (hu : 512 ≤ v.pageSize) (hu2 : v.pa
     (es : List SchemaEntry) (hes : StoredSchemaRows enc Ts.leafCells es)
     (hwf : ∀ e ∈ es, e.WellFormed) (hsup : ∀ e ∈ es, e.Supported)
     (e : SchemaEntry) (he : e ∈ es) (hty : e.type = "table") (r : Nat) (hr : e.rootpage = some (r : Int))
+    (huniq : ∀ e' ∈ es, e'.type = "table" → e'.name = e.name → e' = e)
     (T : TTree) (hTp : T.page = r) (hTl : TreeLaidOut v true T) (framesT : Nat) (hfT : T.frames ≤ framesT)
     (hpdT : T.PagesDistinct) (hndT : (T.leafCells.map (·.rowid)).Nodup) :
     ∃ t ms tt, getBTreeRoot v frames 1 = .ok t ∧ (∀ v' : VersionIf, parseMasterSchema v' enc t = .ok ms) ∧
       rootOf ms e.ident = some (.int r) ∧
-      ((∀ e' ∈ es, e'.name = e.name → e' = e) →
-        (entryByName ms e.name).map (·.rootPage) = some (.int r) ∧
-        selectAllFromTable v framesT ms e.name = .ok ((aggregateLeafCells tt []).1, (aggregateLeafCells tt []).2.1)) ∧
+      (tableByName ms e.name).map (·.rootPage) = some (.int r) ∧
+      selectAllFromTable v framesT ms e.name = .ok ((aggregateLeafCells tt []).1, (aggregateLeafCells tt []).2.1) ∧
       (r ≠ 0 → r ∈ ms.rootNumbers) ∧
       getBTreeRoot v framesT r = .ok tt ∧
       (leafCells tt).map Spec.cellRow = T.leafCells.map CellSpec.row ∧
       (aggregateLeafCells tt []).1 = T.leafCells.length ∧
       (aggregateLeafCells tt []).2.1.map (fun x => Spec.cellRow x.2) = T.leafCells.map CellSpec.row := by
-  have hne : es ≠ [] := by intro h; rw [h] at he; cases he
-  obtain ⟨t, ms, ht, hms, _, hent, hroots, _⟩ :=
-    schema_rows_strong v hu hu2 enc henc Ts hp1 hT frames hf hpd hleaf es hes hne hwf hsup
-  obtain ⟨h1, h2, h3⟩ := lookups es ms hent hroots (entries_rowid_inj enc _ es hes hnd) e he hty r hr
+  obtain ⟨t, ms, ht, hms, h1, h2, h3⟩ :=
+    schema_entry_lookup v hu hu2 enc henc Ts hp1 hT frames hf hpd hnd hleaf es hes hwf hsup e he (Or.inl hty) r hr
+  have hl : (tableByName ms e.name).map (·.rootPage) = some (.int r) :=
+    h2 ["table"] (by rw [hty]; exact List.mem_singleton.mpr rfl)
+      (fun e' he' hk => huniq e' he' (List.mem_singleton.mp hk))
   obtain ⟨tt, htt, _, hrows, hcount, hdict⟩ := table_tree_rows v hu hu2 T hTl framesT hfT hpdT hndT
   rw [hTp] at htt
-  exact ⟨t, ms, tt, ht, hms, h1, fun hu' => ⟨h2 hu', select_of_lookup v framesT ms e.name r tt (h2 hu') htt⟩,
-    h3, htt, hrows, hcount, hdict⟩
+  exact ⟨t, ms, tt, ht, hms, h1, hl, select_table_of_lookup v framesT ms e.name r tt hl htt, h3, htt, hrows,
+    hcount, hdict⟩
+
+/-- **schema row → root page → entries** (indexes). -/
+theorem index_entries_by_name (v : VersionIf) (hu : 512 ≤ v.pageSize) (hu2 : v.pageSize ≤ 65536)
+    (enc : Nat) (henc : enc = 1 ∨ enc = 2 ∨ enc = 3)
+    (Ts : TTree) (hp1 : Ts.page = 1) (hT : TreeLaidOut v true Ts) (frames : Nat) (hf : Ts.frames ≤ frames)
+    (hpd : Ts.PagesDistinct) (hnd : (Ts.leafCells.map (·.rowid)).Nodup)
+    (hleaf : ∀ nd ∈ Ts.nodes true, nd.2.1.isInterior = false → nd.2.2 = [] → nd.1 = 1)
+    (es : List SchemaEntry) (hes : StoredSchemaRows enc Ts.leafCells es)
+    (hwf : ∀ e ∈ es, e.WellFormed) (hsup : ∀ e ∈ es, e.Supported)
+    (e : SchemaEntry) (he : e ∈ es) (hty : e.type = "index") (r : Nat) (hr : e.rootpage = some (r : Int))
+    (huniq : ∀ e' ∈ es, e'.type = "index" → e'.name = e.name → e' = e)
+    (T : TTree) (hTp : T.page = r) (hTl : TreeLaidOut v false T) (framesT : Nat) (hfT : T.frames ≤ framesT)
+    (hpdT : T.PagesDistinct) :
+    ∃ t ms tt, getBTreeRoot v frames 1 = .ok t ∧ (∀ v' : VersionIf, parseMasterSchema v' enc t = .ok ms) ∧
+      rootOf ms e.ident = some (.int r) ∧
+      (indexByName ms e.name).map (·.rootPage) = some (.int r) ∧
+      selectAllFromIndex v framesT ms e.name = .ok ((aggregateLeafCells tt []).1, (aggregateLeafCells tt []).2.1) ∧
+      (r ≠ 0 → r ∈ ms.rootNumbers) ∧
+      getBTreeRoot v framesT r = .ok tt ∧
+      Elementwise (fun s c => CellSpec.ReportedAs v.pageSize s c) T.allCells (tt.flatMap (·.cells)) ∧
+      (tt.flatMap (·.cells)).map Spec.cellRow = T.allCells.map CellSpec.row ∧
+      Elementwise (fun s c => CellSpec.ReportedAs v.pageSize s c) T.leafCells (leafCells tt) ∧
+      (aggregateLeafCells tt []).1 = T.leafCells.length := by
+  obtain ⟨t, ms, ht, hms, h1, h2, h3⟩ :=
+    schema_entry_lookup v hu hu2 enc henc Ts hp1 hT frames hf hpd hnd hleaf es hes hwf hsup e he
+      (Or.inr (Or.inl hty)) r hr
+  have hl : (indexByName ms e.name).map (·.rootPage) = some (.int r) :=
+    h2 ["index"] (by rw [hty]; exact List.mem_singleton.mpr rfl)
+      (fun e' he' hk => huniq e' he' (List.mem_singleton.mp hk))
+  obtain ⟨tt, htt, hall, hallrows, hleafs, hcount⟩ := index_tree_entries v hu hu2 T hTl framesT hfT hpdT
+  rw [hTp] at htt
+  exact ⟨t, ms, tt, ht, hms, h1, hl, select_index_of_lookup v framesT ms e.name r tt hl htt, h3, htt, hall,
+    hallrows, hleafs, hcount⟩
 
 /-! ### version k of a WAL history -/
 
@@ -678,6 +760,7 @@ theorem version_table_rows_by_name (cfg : Config) (db : Database) (dbv : Version
     (es : List SchemaEntry) (hes : StoredSchemaRows enc Ts.leafCells es)
     (hwf : ∀ e ∈ es, e.WellFormed) (hsup : ∀ e ∈ es, e.Supported)
     (e : SchemaEntry) (he : e ∈ es) (hty : e.type = "table") (r : Nat) (hr : e.rootpage = some (r : Int))
+    (huniq : ∀ e' ∈ es, e'.type = "table" → e'.name = e.name → e' = e)
     (T : TTree) (hTp : T.page = r)
     (hTl : TreeLaidOut (snapshotIf cfg.strict dbv db.dbSize.floor w.fh w.hdr.pageSize
       (groupFrames w.frames [] []).1 k) true T)
@@ -685,21 +768,60 @@ theorem version_table_rows_by_name (cfg : Config) (db : Database) (dbv : Version
     (hpdT : T.PagesDistinct) (hndT : (T.leafCells.map (·.rowid)).Nodup) :
     ∃ t ms tt, getBTreeRoot v frames 1 = .ok t ∧ (∀ v' : VersionIf, parseMasterSchema v' enc t = .ok ms) ∧
       rootOf ms e.ident = some (.int r) ∧
-      ((∀ e' ∈ es, e'.name = e.name → e' = e) →
-        (entryByName ms e.name).map (·.rootPage) = some (.int r) ∧
-        selectAllFromTable v framesT ms e.name = .ok ((aggregateLeafCells tt []).1, (aggregateLeafCells tt []).2.1)) ∧
+      (tableByName ms e.name).map (·.rootPage) = some (.int r) ∧
+      selectAllFromTable v framesT ms e.name = .ok ((aggregateLeafCells tt []).1, (aggregateLeafCells tt []).2.1) ∧
       (r ≠ 0 → r ∈ ms.rootNumbers) ∧
       getBTreeRoot v framesT r = .ok tt ∧
       (leafCells tt).map Spec.cellRow = T.leafCells.map CellSpec.row ∧
       (aggregateLeafCells tt []).1 = T.leafCells.length ∧
       (aggregateLeafCells tt []).2.1.map (fun x => Spec.cellRow x.2) = T.leafCells.map CellSpec.row := by
-  obtain ⟨t, ms, tt, ht, hms, h1, h2, h3, htt, rest⟩ :=
-    table_rows_by_name _ hu hu2 enc henc Ts hp1 hT frames hf hpd hnd hleaf es hes hwf hsup e he hty r hr
+  obtain ⟨t, ms, tt, ht, hms, h1, h2, _, h3, htt, rest⟩ :=
+    table_rows_by_name _ hu hu2 enc henc Ts hp1 hT frames hf hpd hnd hleaf es hes hwf hsup e he hty r hr huniq
       T hTp hTl framesT hfT hpdT hndT
   have htt' := (VersionRows.version_tree_eq_snapshot_tree cfg db dbv w vs h k ver v hk hdb0 framesT r tt).mpr htt
   exact ⟨t, ms, tt,
     (VersionRows.version_tree_eq_snapshot_tree cfg db dbv w vs h k ver v hk hdb0 frames 1 t).mpr ht, hms,
-    h1, fun hu' => ⟨(h2 hu').1, select_of_lookup v framesT ms e.name r tt (h2 hu').1 htt'⟩, h3, htt', rest⟩
+    h1, h2, select_table_of_lookup v framesT ms e.name r tt h2 htt', h3, htt', rest⟩
+
+open SqliteDissect.Spec (snapshotIf) in
+/-- … and for an index of version `k` -/
+theorem version_index_entries_by_name (cfg : Config) (db : Database) (dbv : VersionIf) (w : Wal)
+    (vs : List (Version × VersionIf)) (h : versionHistory cfg db dbv (some w) = .ok vs)
+    (k : Nat) (ver : Version) (v : VersionIf) (hk : vs[k]? = some (ver, v))
+    (hdb0 : k = 0 → ∃ f, dbv = dbVersionIf cfg w.hdr.pageSize db.dbSize f)
+    (hu : 512 ≤ w.hdr.pageSize) (hu2 : w.hdr.pageSize ≤ 65536)
+    (enc : Nat) (henc : enc = 1 ∨ enc = 2 ∨ enc = 3)
+    (Ts : TTree) (hp1 : Ts.page = 1)
+    (hT : TreeLaidOut (snapshotIf cfg.strict dbv db.dbSize.floor w.fh w.hdr.pageSize
+      (groupFrames w.frames [] []).1 k) true Ts)
+    (frames : Nat) (hf : Ts.frames ≤ frames)
+    (hpd : Ts.PagesDistinct) (hnd : (Ts.leafCells.map (·.rowid)).Nodup)
+    (hleaf : ∀ nd ∈ Ts.nodes true, nd.2.1.isInterior = false → nd.2.2 = [] → nd.1 = 1)
+    (es : List SchemaEntry) (hes : StoredSchemaRows enc Ts.leafCells es)
+    (hwf : ∀ e ∈ es, e.WellFormed) (hsup : ∀ e ∈ es, e.Supported)
+    (e : SchemaEntry) (he : e ∈ es) (hty : e.type = "index") (r : Nat) (hr : e.rootpage = some (r : Int))
+    (huniq : ∀ e' ∈ es, e'.type = "index" → e'.name = e.name → e' = e)
+    (T : TTree) (hTp : T.page = r)
+    (hTl : TreeLaidOut (snapshotIf cfg.strict dbv db.dbSize.floor w.fh w.hdr.pageSize
+      (groupFrames w.frames [] []).1 k) false T)
+    (framesT : Nat) (hfT : T.frames ≤ framesT) (hpdT : T.PagesDistinct) :
+    ∃ t ms tt, getBTreeRoot v frames 1 = .ok t ∧ (∀ v' : VersionIf, parseMasterSchema v' enc t = .ok ms) ∧
+      rootOf ms e.ident = some (.int r) ∧
+      (indexByName ms e.name).map (·.rootPage) = some (.int r) ∧
+      selectAllFromIndex v framesT ms e.name = .ok ((aggregateLeafCells tt []).1, (aggregateLeafCells tt []).2.1) ∧
+      (r ≠ 0 → r ∈ ms.rootNumbers) ∧
+      getBTreeRoot v framesT r = .ok tt ∧
+      Elementwise (fun s c => CellSpec.ReportedAs w.hdr.pageSize s c) T.allCells (tt.flatMap (·.cells)) ∧
+      (tt.flatMap (·.cells)).map Spec.cellRow = T.allCells.map CellSpec.row ∧
+      Elementwise (fun s c => CellSpec.ReportedAs w.hdr.pageSize s c) T.leafCells (leafCells tt) ∧
+      (aggregateLeafCells tt []).1 = T.leafCells.length := by
+  obtain ⟨t, ms, tt, ht, hms, h1, h2, _, h3, htt, rest⟩ :=
+    index_entries_by_name _ hu hu2 enc henc Ts hp1 hT frames hf hpd hnd hleaf es hes hwf hsup e he hty r hr huniq
+      T hTp hTl framesT hfT hpdT
+  have htt' := (VersionRows.version_tree_eq_snapshot_tree cfg db dbv w vs h k ver v hk hdb0 framesT r tt).mpr htt
+  exact ⟨t, ms, tt,
+    (VersionRows.version_tree_eq_snapshot_tree cfg db dbv w vs h k ver v hk hdb0 frames 1 t).mpr ht, hms,
+    h1, h2, select_index_of_lookup v framesT ms e.name r tt h2 htt', h3, htt', rest⟩
 
 /-- a commit record that did not modify the schema re-parses page 1 under itself: what
 `version.master_schema` then is -/
@@ -769,7 +891,7 @@ theorem demo_table_laid_out : TreeLaidOut schemaV true tableTree :=
 parses to one entry, both lookups give root page 3, and the table's row is `(1; 7, 'hi')` -/
 theorem demo_table_rows_by_name : ∃ t ms tt,
     getBTreeRoot schemaV 1 1 = .ok t ∧ parseMasterSchema schemaV 1 t = .ok ms ∧
-    rootOf ms entryX.ident = some (.int 3) ∧ (entryByName ms [120]).map (·.rootPage) = some (.int 3) ∧
+    rootOf ms entryX.ident = some (.int 3) ∧ (tableByName ms [120]).map (·.rootPage) = some (.int 3) ∧
     ms.rootNumbers = [3] ∧
     getBTreeRoot schemaV 1 3 = .ok tt ∧
     (leafCells tt).map Spec.cellRow = [(some 1, some [⟨1, 1, 1, .int 7⟩, ⟨17, 1, 2, .text [104, 105]⟩])] := by
@@ -777,7 +899,7 @@ theorem demo_table_rows_by_name : ∃ t ms tt,
     intro P h e he
     rw [List.mem_singleton] at he
     rw [he]; exact h
-  obtain ⟨t, ms, tt, ht, hms, h1, h2, h3, htt, hrows, _⟩ :=
+  obtain ⟨t, ms, tt, ht, hms, h1, h2, _, h3, htt, hrows, _⟩ :=
     table_rows_by_name schemaV (by decide) (by decide) 1 (Or.inl rfl) schemaTree rfl demo_schema_laid_out 1
       (by simp [schemaTree, TTree.frames]) (by simp [TTree.PagesDistinct, schemaTree, TTree.nodes])
       (by simp [schemaTree, TTree.leafCells])
@@ -787,7 +909,7 @@ theorem demo_table_rows_by_name : ∃ t ms tt,
         rw [hnd] at hempty
         exact absurd hempty (by simp))
       [entryX] demo_stored (hmem _ (by decide)) (hmem _ (by decide))
-      entryX List.mem_cons_self rfl 3 rfl tableTree rfl demo_table_laid_out 1
+      entryX List.mem_cons_self rfl 3 rfl (hmem _ (fun _ _ => rfl)) tableTree rfl demo_table_laid_out 1
       (by simp [tableTree, TTree.frames]) (by simp [TTree.PagesDistinct, tableTree, TTree.nodes])
       (by simp [tableTree, TTree.leafCells])
   obtain ⟨t', ms', ht', hms', _, _, hroots, _⟩ :=
@@ -800,7 +922,7 @@ theorem demo_table_rows_by_name : ∃ t ms tt,
         exact absurd hempty (by simp))
       [entryX] demo_stored (by simp) (hmem _ (by decide)) (hmem _ (by decide))
   refine ⟨t, ms, tt, ht, hms schemaV, h1, ?_, ?_, htt, ?_⟩
-  · exact (h2 (hmem _ (fun _ => rfl))).1
+  · exact h2
   · have heq : ms' = ms := by
       have htt' : t' = t := by rw [ht] at ht'; exact (Except.ok.inj ht').symm
       have := hms' schemaV
@@ -884,22 +1006,137 @@ theorem demo_served3C : PageServed schemaVC 3 L3 :=
 theorem schemaTreeC_leafCells : schemaTreeC.leafCells = [schemaRowT, schemaRowTrig] := by
   simp [schemaTreeC, TTree.leafCells]
 
-/-- all hypotheses of `table_rows_by_name` except uniqueness of the name hold for the table `t`;
-the by-name dictionary of `select_all_from_table` hands back the trigger's root page 0 (evaluated
-by the kernel on the stub), the tracking identity `rootOf` gives 3 -/
-theorem name_collision :
+/-- the lookup before commit c7e48c5 (finding C01Schema-2): the dictionary was keyed by name over
+*all* entries -/
+def entryByNameOld (ms : MasterSchema) (name : List Nat) : Option SchemaRow :=
+  (ms.entries.filter fun e => e.name = name).getLast?
+
+theorem collision_hyps :
     StoredSchemaRows 1 schemaTreeC.leafCells [entryT, entryTrig] ∧
     (∀ e ∈ [entryT, entryTrig], e.WellFormed) ∧ (∀ e ∈ [entryT, entryTrig], e.Supported) ∧
-    TreeLaidOut schemaVC true schemaTreeC ∧ TreeLaidOut schemaVC true tableTree ∧
+    (∀ e' ∈ [entryT, entryTrig], e'.type = "table" → e'.name = entryT.name → e' = entryT) ∧
+    TreeLaidOut schemaVC true schemaTreeC ∧ TreeLaidOut schemaVC true tableTree :=
+  ⟨by rw [schemaTreeC_leafCells]; decide +kernel, by decide, by decide, by decide,
+    TreeLaidOut.leaf 1 _ L1C rfl rfl demo_served1C, TreeLaidOut.leaf 3 _ L3 rfl rfl demo_served3C⟩
+
+/-- **witness of the repaired finding.**  On the stub with the table `t` (root page 3) and the
+trigger `t` (root page 0) the *old* by-name dictionary handed back the trigger's root page 0 for
+the name `t` (evaluated by the kernel) -/
+theorem old_lookup_shadowed :
     (match getBTreeRoot schemaVC 1 1 with
       | .ok t => (match parseMasterSchema schemaVC 1 t with
-        | .ok ms => decide ((entryByName ms entryT.name).map (·.rootPage) = some (.int 0) ∧
-            rootOf ms entryT.ident = some (.int 3))
+        | .ok ms => decide ((entryByNameOld ms entryT.name).map (·.rootPage) = some (.int 0))
         | .error _ => false)
-      | .error _ => false) = true := by
-  refine ⟨by rw [schemaTreeC_leafCells]; decide +kernel, by decide, by decide,
-    TreeLaidOut.leaf 1 _ L1C rfl rfl demo_served1C, TreeLaidOut.leaf 3 _ L3 rfl rfl demo_served3C,
-    by decide +kernel⟩
+      | .error _ => false) = true := by decide +kernel
+
+/-- the repaired lookups on the same stub, evaluated by the kernel: `tableByName` and
+`tableOrIndexByName` give the table's root page 3, `indexByName` finds nothing, the tracking
+identity gives 3, and `selectAllFromTable` returns one cell, the row `(1; 7, 'hi')` -/
+theorem new_lookup_on_collision :
+    (match getBTreeRoot schemaVC 1 1 with
+      | .ok t => (match parseMasterSchema schemaVC 1 t with
+        | .ok ms => decide ((tableByName ms entryT.name).map (·.rootPage) = some (.int 3) ∧
+            (tableOrIndexByName ms entryT.name).map (·.rootPage) = some (.int 3) ∧
+            (indexByName ms entryT.name).map (·.rootPage) = none ∧
+            rootOf ms entryT.ident = some (.int 3)) &&
+          (match selectAllFromTable schemaVC 1 ms entryT.name with
+            | .ok (n, d) => decide (n = 1 ∧ d.map (fun x => Spec.cellRow x.2) =
+                [(some 1, some [⟨1, 1, 1, .int 7⟩, ⟨17, 1, 2, .text [104, 105]⟩])])
+            | .error _ => false)
+        | .error _ => false)
+      | .error _ => false) = true := by decide +kernel
+
+/-- … and what `table_rows_by_name` yields for it (all hypotheses hold: the trigger is not of type
+table) -/
+theorem collision_table_rows : ∃ t ms tt,
+    getBTreeRoot schemaVC 1 1 = .ok t ∧ parseMasterSchema schemaVC 1 t = .ok ms ∧
+    (tableByName ms entryT.name).map (·.rootPage) = some (.int 3) ∧
+    selectAllFromTable schemaVC 1 ms entryT.name = .ok ((aggregateLeafCells tt []).1, (aggregateLeafCells tt []).2.1) ∧
+    (leafCells tt).map Spec.cellRow = [(some 1, some [⟨1, 1, 1, .int 7⟩, ⟨17, 1, 2, .text [104, 105]⟩])] := by
+  obtain ⟨hst, hwf, hsup, huniq, hT, hTt⟩ := collision_hyps
+  obtain ⟨t, ms, tt, ht, hms, _, h2, hsel, _, _, hrows, _⟩ :=
+    table_rows_by_name schemaVC (by decide) (by decide) 1 (Or.inl rfl) schemaTreeC rfl hT 1
+      (by simp [schemaTreeC, TTree.frames]) (by simp [TTree.PagesDistinct, schemaTreeC, TTree.nodes])
+      (by rw [schemaTreeC_leafCells]; decide)
+      (by
+        intro nd hnd _ hempty
+        simp only [schemaTreeC, TTree.nodes, List.mem_singleton] at hnd
+        rw [hnd] at hempty
+        exact absurd hempty (by simp))
+      [entryT, entryTrig] hst hwf hsup entryT List.mem_cons_self rfl 3 rfl huniq tableTree rfl hTt 1
+      (by simp [tableTree, TTree.frames]) (by simp [TTree.PagesDistinct, tableTree, TTree.nodes])
+      (by simp [tableTree, TTree.leafCells])
+  refine ⟨t, ms, tt, ht, hms schemaVC, h2, hsel, ?_⟩
+  rw [hrows, tableTree_leafCells]; decide +kernel
+
+
+/-! ### an index found through the schema
+
+Page 1 holds `(1; 'table','x','x',3,…)` and `(2; 'index','ix','x',7,'CREATE INDEX ix ON x(a)')`;
+page 7 is `TreeDemo.page7`, the index leaf with the keys 0, 1, ''. -/
+
+def sqlIx : List Nat :=
+  [67, 82, 69, 65, 84, 69, 32, 73, 78, 68, 69, 88, 32, 105, 120, 32, 79, 78, 32, 120, 40, 97, 41]
+def schemaRowIx : CellSpec :=
+  .tableLeaf 2 [⟨23, [105, 110, 100, 101, 120]⟩, ⟨17, [105, 120]⟩, ⟨15, [120]⟩, ⟨1, [7]⟩, ⟨59, sqlIx⟩] []
+def entryIx : SchemaEntry := ⟨2, "index", [105, 120], [120], some 7, some sqlIx⟩
+def L1I : PageLayout := packLayout 512 100 .tableLeaf [schemaRowX, schemaRowIx] 0
+def schemaTblI : Nat → Option (List Nat)
+  | 1 => some (packBytes 512 L1I)
+  | 3 => some (packBytes 512 L3)
+  | 7 => some page7
+  | _ => none
+def schemaVI : VersionIf := mkV 512 schemaTblI
+def schemaTreeI : TTree := .leaf 1 [schemaRowX, schemaRowIx]
+def indexTree : TTree := .leaf 7 [key0, key1, keyE]
+
+theorem demo_page1I : PageLaidOut 512 (packBytes 512 L1I) L1I := pageLaidOutB_sound _ _ _ (by decide +kernel)
+
+theorem demo_served1I : PageServed schemaVI 1 L1I :=
+  ⟨_, mkV_serves 512 schemaTblI 1 _ rfl (by decide +kernel), demo_page1I, rfl, by
+    intro c hc
+    apply validLocalB_sound
+    revert c
+    decide +kernel⟩
+
+theorem demo_served7I : PageServed schemaVI 7 L7 :=
+  ⟨_, mkV_serves 512 schemaTblI 7 _ rfl (by decide +kernel), TreeDemo.demo_page7, rfl, by
+    intro c hc
+    apply validLocalB_sound
+    revert c
+    decide +kernel⟩
+
+theorem schemaTreeI_leafCells : schemaTreeI.leafCells = [schemaRowX, schemaRowIx] := by
+  simp [schemaTreeI, TTree.leafCells]
+
+/-- every hypothesis of `index_entries_by_name` holds for the stub; its conclusion: the index is
+found at root page 7 and its three entries are reported -/
+theorem demo_index_entries_by_name : ∃ t ms tt,
+    getBTreeRoot schemaVI 1 1 = .ok t ∧ parseMasterSchema schemaVI 1 t = .ok ms ∧
+    (indexByName ms entryIx.name).map (·.rootPage) = some (.int 7) ∧
+    selectAllFromIndex schemaVI 1 ms entryIx.name = .ok ((aggregateLeafCells tt []).1, (aggregateLeafCells tt []).2.1) ∧
+    (aggregateLeafCells tt []).1 = 3 ∧
+    (tt.flatMap (·.cells)).map Spec.cellRow =
+      [(none, some [⟨8, 1, 0, .int 0⟩]), (none, some [⟨9, 1, 0, .int 1⟩]), (none, some [⟨13, 1, 0, .text []⟩])] := by
+  obtain ⟨t, ms, tt, ht, hms, _, h2, hsel, _, _, _, hrows, _, hcount⟩ :=
+    index_entries_by_name schemaVI (by decide) (by decide) 1 (Or.inl rfl) schemaTreeI rfl
+      (TreeLaidOut.leaf 1 _ L1I rfl rfl demo_served1I) 1
+      (by simp [schemaTreeI, TTree.frames]) (by simp [TTree.PagesDistinct, schemaTreeI, TTree.nodes])
+      (by rw [schemaTreeI_leafCells]; decide)
+      (by
+        intro nd hnd _ hempty
+        simp only [schemaTreeI, TTree.nodes, List.mem_singleton] at hnd
+        rw [hnd] at hempty
+        exact absurd hempty (by simp))
+      [entryX, entryIx] (by rw [schemaTreeI_leafCells]; decide +kernel) (by decide) (by decide)
+      entryIx (by decide) rfl 7 rfl (by decide) indexTree rfl
+      (TreeLaidOut.leaf 7 _ L7 rfl rfl demo_served7I) 1
+      (by simp [indexTree, TTree.frames]) (by simp [TTree.PagesDistinct, indexTree, TTree.nodes])
+  have hall : indexTree.allCells = [key0, key1, keyE] := by simp [indexTree, TTree.allCells]
+  have hleafs : indexTree.leafCells = [key0, key1, keyE] := by simp [indexTree, TTree.leafCells]
+  refine ⟨t, ms, tt, ht, hms schemaVI, h2, hsel, ?_, ?_⟩
+  · rw [hcount, hleafs]; rfl
+  · rw [hrows, hall]; decide +kernel
 
 end Demo
 
